@@ -6,11 +6,14 @@ import Qx.Generated.IqHandlers
 Property theorems only (model: `Qx/Model/C08Dispatch.lean`, helpers: `Qx/Proofs/C08.lean`, generated
 source facts: `Qx/Generated/IqHandlers.lean`).
 
-A `Stanza` is an incoming `<iq/>`: type class × sender class × id class × entry (stream / decrypted) × the
-list of its children (unbounded), each child reduced to (tag, namespace, flag).  `dispatch exts s` is what the
+A `Stanza` is an incoming `<iq/>`: type class × sender class × id class × entry (stream / injectIq / stream +
+e2ee extension) × stream phase (session established / still negotiating) × the list of its children (unbounded),
+each child reduced to (tag, namespace, two flags).  `dispatch exts s` is what the
 client does with it when the extensions `exts` are installed in that order; `.sent` are the IQ
 result/error stanzas it sends.  `answeredRight s sent` is the property text for one stanza:
 get/set ⇒ `sent` is exactly one reply with the same id that reaches the sender; result/error ⇒ `sent = []`.
+The property is about a CONNECTED client: the main theorems assume `s.phase = .session` (or the direct injectIq
+entry); what happens before the session is established is `no_reply_before_session`.
 
 History: before repo commits 28afc7a, 318b7cf, 1833c1a, 29beb7d, 88fc5c1, daa6e10, 7916dee, e597fe7, af7bef7 nine
 managers swallowed requests or answered responses; the model then proved `¬ FullC08` at 37 witness cells, which are
@@ -25,10 +28,11 @@ if each installed handler is good at the stanza — a request is either answered
 proper reply or passed on silently — then a get/set gets exactly one reply, it carries the request's id
 and it is addressed so that it reaches the sender. -/
 theorem request_answered_once (exts : List Row) (s : Stanza)
-    (hgood : ∀ r ∈ exts, r.good s = true) (hreq : s.type = .get ∨ s.type = .set) :
+    (hgood : ∀ r ∈ exts, r.good s = true) (hsess : s.phase = .session ∨ s.entry = .inject)
+    (hreq : s.type = .get ∨ s.type = .set) :
     replies (dispatch exts s) = 1 ∧
     ∃ r, (dispatch exts s).sent = [r] ∧ r.idSame = true ∧ r.to.okFor s.frm = true := by
-  have h := dispatch_good exts s hgood
+  have h := dispatch_good exts s hgood hsess
   have hq : isReq s.type = true := by rcases hreq with h | h <;> simp [h, isReq]
   simp only [answeredRight, answeredTF, hq, if_true] at h
   generalize (dispatch exts s) = o at h ⊢
@@ -38,12 +42,13 @@ theorem request_answered_once (exts : List Row) (s : Stanza)
     simp only [okOne, Bool.and_eq_true] at h
     exact ⟨rfl, r, rfl, h.1, h.2⟩
 
-/-- **Responses.** Under the same hypothesis nothing at all is sent for a result/error, whatever its
-payload, sender and id — so two endpoints cannot bounce errors. -/
+/-- **Responses.** Under the same hypothesis nothing at all is sent for a result/error — whether or not anybody
+waits for it, whatever its payload, sender and id — so two endpoints cannot bounce errors. -/
 theorem response_never_answered (exts : List Row) (s : Stanza)
-    (hgood : ∀ r ∈ exts, r.good s = true) (hresp : s.type = .result ∨ s.type = .error) :
+    (hgood : ∀ r ∈ exts, r.good s = true) (hsess : s.phase = .session ∨ s.entry = .inject)
+    (hresp : s.type = .result ∨ s.type = .error) :
     replies (dispatch exts s) = 0 ∧ (dispatch exts s).sent = [] := by
-  have h := dispatch_good exts s hgood
+  have h := dispatch_good exts s hgood hsess
   have hp : isResp s.type = true := by rcases hresp with h | h <;> simp [h, isResp]
   have hq : isReq s.type = false := isResp_not_isReq hp
   simp only [answeredRight, answeredTF, hq, hp, if_true, Bool.false_eq_true, if_false,
@@ -52,50 +57,76 @@ theorem response_never_answered (exts : List Row) (s : Stanza)
 
 /-! ## 2. The bundled managers: every row is good, hence C08 holds for every installation -/
 
-/-- Every bundled manager's handler (31 classes; blocking with and without a blocklist, MUC with and without a
-matching room) is good at EVERY stanza, any number of children: a get/set is either answered by it with
-exactly one proper reply or passed on without sending anything; nothing is sent for a result/error. -/
+/-- Every bundled manager's handler, in every modelled state (31 classes; blocking with and without a blocklist;
+MUC with and without a room waiting for the stanza; transfer manager with nobody / an accepting / a declining
+`fileReceived` listener and with no / an accepted / an opened incoming in-band job), is good at EVERY stanza,
+any number of children: a get/set is either answered by it with exactly one proper reply or passed on without
+sending anything; nothing is sent for a result/error. -/
 theorem every_row_good (m : Mgr) (s : Stanza) : (rowOf m).good s = true := row_good m s
 
-/-- **C08.** For every set of bundled managers, in every registration order and multiplicity, and every
-incoming IQ (any payload, sender, id; from the stream or decrypted): a get/set gets exactly one reply,
-carrying the request's id and addressed so that it reaches the sender (feature-not-implemented from the
-fallback when no extension claims it); a result/error gets no reply at all. -/
-theorem C08_holds (ms : List Mgr) (s : Stanza) :
+/-- **C08.** Session established (or direct injectIq). For every set of bundled managers, in every registration
+order, multiplicity and modelled state, and every incoming IQ (any payload, sender, id; plain, decrypted, or
+encrypted and decrypted by the e2ee extension): a get/set gets exactly one reply, carrying the request's id and
+addressed so that it reaches the sender; a result/error gets no reply at all. -/
+theorem C08_holds (ms : List Mgr) (s : Stanza) (hsess : s.phase = .session ∨ s.entry = .inject) :
     answeredRight s (dispatch (ms.map rowOf) s).sent = true := by
-  apply dispatch_good
+  apply dispatch_good _ _ _ hsess
   intro r hr
   rcases List.mem_map.mp hr with ⟨m, _, rfl⟩
   exact every_row_good m s
 
 /-- C08 for requests, spelled out -/
-theorem C08_requests (ms : List Mgr) (s : Stanza) (hreq : s.type = .get ∨ s.type = .set) :
+theorem C08_requests (ms : List Mgr) (s : Stanza) (hsess : s.phase = .session ∨ s.entry = .inject)
+    (hreq : s.type = .get ∨ s.type = .set) :
     replies (dispatch (ms.map rowOf) s) = 1 ∧
     ∃ r, (dispatch (ms.map rowOf) s).sent = [r] ∧ r.idSame = true ∧ r.to.okFor s.frm = true := by
-  apply request_answered_once _ _ _ hreq
+  apply request_answered_once _ _ _ hsess hreq
   intro r hr
   rcases List.mem_map.mp hr with ⟨m, _, rfl⟩
   exact every_row_good m s
 
-/-- C08 for responses, spelled out: no reply, so two endpoints can never bounce errors -/
-theorem C08_responses (ms : List Mgr) (s : Stanza) (hresp : s.type = .result ∨ s.type = .error) :
+/-- C08 for responses, spelled out: a result/error — expected by somebody or not — is never answered, so two
+endpoints can never bounce errors -/
+theorem C08_responses (ms : List Mgr) (s : Stanza) (hsess : s.phase = .session ∨ s.entry = .inject)
+    (hresp : s.type = .result ∨ s.type = .error) :
     replies (dispatch (ms.map rowOf) s) = 0 ∧ (dispatch (ms.map rowOf) s).sent = [] := by
-  apply response_never_answered _ _ _ hresp
+  apply response_never_answered _ _ _ hsess hresp
   intro r hr
   rcases List.mem_map.mp hr with ⟨m, _, rfl⟩
   exact every_row_good m s
 
-/-- the only reply the fallback ever adds is an error addressed to the sender with the request's id, and it
-is added exactly when no extension claimed a get/set -/
-theorem fallback_reply_shape (exts : List Row) (s : Stanza) (h : (dispatch exts s).by_ = .fallback)
-    (hreq : isReq s.type = true) (hch : (chain exts s).sent = []) :
-    (dispatch exts s).sent = [⟨.error, .sender, true⟩] := by
+/-- **Which error when nobody claims a request.** If no installed extension claims a get/set (and none sent
+anything), the single reply is `<error type='cancel'><feature-not-implemented/></error>`, addressed to the
+sender, with the request's id; it is sent encrypted exactly when the request arrived decrypted (injectIq). -/
+theorem unclaimed_request_gets_feature_not_implemented (exts : List Row) (s : Stanza)
+    (hsess : s.phase = .session ∨ s.entry = .inject) (hreq : isReq s.type = true)
+    (hnone : (chain exts s).handledBy = none) (hch : (chain exts s).sent = []) :
+    dispatch exts s =
+      ⟨.fallback, [⟨.error .cancel .featureNotImplemented, .sender, true, s.entry != .stream⟩], false⟩ := by
   have hnresp := isReq_not_isResp hreq
   have ht : tableConsumes s = false := by simp [tableConsumes, hnresp]
-  simp only [dispatch, ht, Bool.and_false, Bool.false_eq_true, if_false] at h ⊢
-  cases hb : (chain exts s).handledBy with
-  | some m => simp [hb] at h
-  | none => simp [hreq, hch, fallbackReply]
+  have hneg : (s.entry != .inject && decide (s.phase = .negotiating)) = false := by
+    rcases hsess with h1 | h1 <;> simp [h1]
+  simp [dispatch, hneg, ht, hnone, hreq, hch, fallbackReply]
+
+/-- with only bundled managers installed nothing is ever sent by a manager that does not claim the stanza, so
+"no extension claims it" alone gives the feature-not-implemented reply -/
+theorem unclaimed_request_bundled (ms : List Mgr) (s : Stanza)
+    (hsess : s.phase = .session ∨ s.entry = .inject) (hreq : isReq s.type = true)
+    (hnone : (chain (ms.map rowOf) s).handledBy = none) :
+    (dispatch (ms.map rowOf) s).sent
+      = [⟨.error .cancel .featureNotImplemented, .sender, true, s.entry != .stream⟩] := by
+  have hgood : ∀ r ∈ ms.map rowOf, r.good s = true := by
+    intro r hr; rcases List.mem_map.mp hr with ⟨m, _, rfl⟩; exact every_row_good m s
+  have hch := (chain_req _ s hreq hgood).2 hnone
+  rw [unclaimed_request_gets_feature_not_implemented _ s hsess hreq hnone hch]
+
+/-- **Before the session is established** (a negotiation manager is the stream's listener, or TLS is required and
+not active) an `<iq/>` arriving on the stream — plain or encrypted, any type — is never answered: the stream is
+closed with "Unexpected element received". -/
+theorem no_reply_before_session (exts : List Row) (s : Stanza) (hp : s.phase = .negotiating)
+    (he : s.entry ≠ .inject) : (dispatch exts s).sent = [] ∧ (dispatch exts s).disconnect = true := by
+  rw [dispatch_negotiating exts s hp he]; exact ⟨rfl, rfl⟩
 
 /-! ## 4. The model's tables are the source's (regenerated by translators/iq_handlers.py on every run) -/
 
